@@ -129,7 +129,9 @@ func (c04) Rule() string {
 		"cases: (pairs) pairwise-covering sweep over (components 1..4, P 1..16, signed, levels 0..6, code-block w/h 4..64, precinct 0/32..256, progression 0..4, layers 1..6, MCT) on noise; (grid) every size in a small square plus sampled sizes to 40x40 with a seeded configuration; (cb) sizes around code-block multiples; (rand) sizes up to 600; (content) constant/extreme/impulse images (empty code-blocks and packets). " +
 		"non-trivial: encoder accepted the configuration and the decoded samples were compared; distinct = distinct descriptor"
 }
-func (c04) Assumptions() []string { return []string{"self round trip through the public Encoder/Decoder objects"} }
+func (c04) Assumptions() []string {
+	return []string{"self round trip through the public Encoder/Decoder objects"}
+}
 func (c04) Decode(raw json.RawMessage) (any, error) { return decodeInto[j2kCase](raw) }
 
 func randJ2KConfig(r *gen.Rand, c *j2kCase) {
@@ -357,9 +359,11 @@ func (c19) Rule() string {
 		"cases: (grid) every (tilesX,tilesY) in [1..8]^2 with an even and an odd tile size each; (partial) tile sizes that leave a last tile 1 sample wide/high; (small) tiles smaller than a code-block, 1xN and Nx1 tile grids; (rand) random tile sizes in [1..w]x[1..h] for images up to 96 (thorough: some up to 600); components {1,3}, P {8,12,16}, levels 0..5, layers 1..3 with and without rate allocation + final lossless layer. " +
 		"non-trivial: more than one tile, encoder accepted, decoded samples compared; distinct = distinct descriptor"
 }
-func (c19) Assumptions() []string { return []string{"self round trip through the public Encoder/Decoder objects"} }
+func (c19) Assumptions() []string {
+	return []string{"self round trip through the public Encoder/Decoder objects"}
+}
 func (c19) Decode(raw json.RawMessage) (any, error) { return decodeInto[j2kCase](raw) }
-func (c19) Derive(d any) map[string]any           { return j2kDerive(d.(*j2kCase)) }
+func (c19) Derive(d any) map[string]any             { return j2kDerive(d.(*j2kCase)) }
 
 func randTileConfig(r *gen.Rand, c *j2kCase) {
 	c.C = gen.Pick(r, 1, 1, 3)
